@@ -420,9 +420,9 @@ def run(chk):
     chk.rule('C07.F', 'constructs cannot straddle a function boundary (error shapes)', floor=25)
     chk.assumptions += ['schema_markdown validate_type implements struct/union/enum/optional/len>0 as documented',
                         'induction to all nesting depths: C01.S stack discipline + C07.N monotone counter']
+    chk.guard('C07.S', check_concrete_models, chk)
     pm = ParserModel(chk.repo, 'C07.S')
     sch = schema_mod.load(chk.repo.module('model'), 'BARE_SCRIPT_TYPES', 'C07.S')
-    chk.guard('C07.S', check_concrete_models, chk)
     n = run_shapes(chk, pm, sch)
     chk.extra['shapes'] = n
     chk.guard('C07.S', check_other_statements, chk, pm, sch)
